@@ -361,7 +361,8 @@ class Schema(dict, metaclass=LogicalMeta):
             if unprovided(addition):
                 # ignore addition
                 return
-            return super().__setitem__(alias, value)
+            # store the value converted to the addition type, not the raw input
+            return super().__setitem__(alias, addition)
 
         return self.__field_setter__(value, field=field)
 
